@@ -44,6 +44,9 @@ def base_cases(tier):
         wk = wk[::2]
     for c in rp:
         cs.append(("rank", "int", c))
+    big = fam.prof_list(fam.rank_family(3), 2, (1400003, 999983), fam.cands(3))
+    for c in (big[30::16] if tier == "quick" else big[::3]):
+        cs.append(("rank", "rat", c))
     for c in wk:
         cs.append(("weak", "int", c))
     return cs
@@ -53,7 +56,7 @@ def build_cases(tier, seed):
     global _CASES, _SEEDDIGESTS, _SEEDS
     _CASES = base_cases(tier)
     meta = {
-        "family": ("quick: 30 single-type + every 3rd two-type profile of " if tier == "quick" else "") + "Prof(Rank(3),2,{1,2}) and a slice of "
+        "family": ("quick: 30 single-type + every 3rd two-type profile of " if tier == "quick" else "") + "Prof(Rank(3),2,{1,2}), a slice of Prof(Rank(3),2,{1400003,999983}) and a slice of "
                   "Prof(Weak(3),2,{1,2}) x one deterministic configuration per code path of every non-random rule + scoring utilities + "
                   "PairwiseComparisonGraph; transformations (all of them per base case): 3! bijections onto each of the name sets "
                   f"{NAME_SETS}, all ballot orders, splits of each ballot weight (w/2+w/2, w/4+3w/4), all 3! candidate-tuple orders; "
